@@ -6,6 +6,10 @@ import DL.Model.Print
 import DL.Model.Descriptor
 import DL.Model.Flatten
 import DL.Model.Viewer
+import DL.Model.AmpGen
+import DL.Model.Perm
+import DL.Model.ModelLex
+import DL.Model.GooFit
 namespace DL
 open Sexp
 
@@ -177,5 +181,103 @@ def encGraph (g : Graph) : Sexp :=
              | none => "mother"
              | some (k, i) => "dec" ++ toString k ++ ":p" ++ toString i),
            .atom ("dec" ++ toString e.dst), .atom e.label])]
+
+/-! ### AmpGen -/
+
+def decOptStr : Sexp → Option (Option String)
+  | .atom "N" => some none
+  | .atom s => some (some s)
+  | _ => none
+
+partial def decADecay : Sexp → Option ADecay
+  | .list [.atom "D", .atom n, sp, ls, .list ds] => do
+    let sp ← decOptStr sp
+    let ls ← decOptStr ls
+    let ds ← ds.mapM decADecay
+    some (.mk n sp ls ds)
+  | _ => none
+
+def decAStmt : Sexp → Option AStmt
+  | .list [.atom "event_type", ns] => ns.asStrs.map .eventType
+  | .list [.atom "constant", .atom n, .atom v] => some (.constant n v)
+  | .list [.atom "variable", .atom n, f, .atom v, .atom e] => f.asInt.map fun f => .variable n f v e
+  | .list [.atom "line", d, f1, .atom v1, .atom e1, f2, .atom v2, .atom e2] => do
+    let d ← decADecay d
+    let f1 ← f1.asInt
+    let f2 ← f2.asInt
+    some (.line { tree := d, flag1 := f1, val1 := v1, err1 := e1, flag2 := f2, val2 := v2, err2 := e2 })
+  | .list [.atom "cart_line"] => some .cartLine
+  | .list [.atom "invert_line"] => some .invertLine
+  | .list [.atom "fcs", n] => n.asNat.map .fastCoherentSum
+  | .list [.atom "output", .atom s] => some (.output s)
+  | .list [.atom "nevents", n] => n.asNat.map .nEvents
+  | _ => none
+
+def decRState : Sexp → Option RState
+  | .list [a, f, c] => do
+    let a ← a.asStrs; let f ← f.asStrs; let c ← c.asBool
+    some { allParticles := a, finalParticles := f, cartesian := c }
+  | _ => none
+
+def decPolicy : Sexp → Option ResetPolicy
+  | .list [a, f, c] => do
+    let a ← a.asBool; let f ← f.asBool; let c ← c.asBool
+    some { allParticles := a, finalParticles := f, cartesian := c }
+  | _ => none
+
+def encOptStr : Option String → Sexp
+  | none => .atom "N"
+  | some s => .list [.atom s]
+
+partial def encAChain : AChain → Sexp
+  | .mk n p sp ls cp ds =>
+    .list [.atom n, .atom p, encOptStr sp, encOptStr ls,
+      (match cp with
+       | none => .atom "N"
+       | some (fix, cart, v1, v2, e1, e2) => .list [bool fix, bool cart, .atom v1, .atom v2, .atom e1, .atom e2]),
+      .list (ds.map encAChain)]
+
+def encRState (s : RState) : Sexp := .list [strs s.allParticles, strs s.finalParticles, bool s.cartesian]
+
+def encReadOut (r : ReadOut) : Sexp :=
+  .list [strs r.eventType,
+         .list (r.parameters.map fun (n, f, v, e) => .list [.atom n, bool f, .atom v, .atom e]),
+         .list (r.constants.map fun (n, v) => .list [.atom n, .atom v]),
+         .list (r.lines.map encAChain)]
+
+def encAmpErr : AmpErr → Sexp
+  | .particleNotFound n => tag "err" [.atom "ParticleNotFound", .atom n]
+  | .noEventType => tag "err" [.atom "NoEventType"]
+  | .fuel => tag "err" [.atom "Fuel"]
+
+/-! ### GooFit emission -/
+
+partial def decGNodeA : Sexp → Option GNodeA
+  | .list [.atom n, .atom st, j, c, .atom prog, sp, ls, .list ds] => do
+    let j ← j.asNat
+    let c ← c.asBool
+    let sp ← decOptStr sp
+    let ls ← decOptStr ls
+    let ds ← ds.mapM decGNodeA
+    some (.mk n st j c prog sp ls ds)
+  | _ => none
+
+def encLsKind : LsKind → Sexp
+  | .rbw => .list [.atom "RBW"]
+  | .gspline => .list [.atom "GSpline"]
+  | .kmatrix p pole => .list [.atom "kMatrix", .atom p, bool pole]
+  | .focus m => .list [.atom "FOCUS", .atom m]
+
+def encAmpOut (a : AmpOut) : Sexp :=
+  .list [.list (a.spinBlock.map fun s => .list [.atom s.sf, .list (s.perm.map nat)]),
+         .list (a.lineBlock.map fun l => .list [encLsKind l.kind, .atom l.name, .atom l.prog, nat l.L, .atom l.mass, nat l.radius10]),
+         nat a.nPerms]
+
+def encEmitErr : EmitErr → Sexp
+  | .shape w => tag "err" [.atom "Shape", .atom w]
+  | .unknownSpin d => tag "err" [.atom "LineFailure", .atom d]
+  | .unknownLineshape l => tag "err" [.atom "UnknownLineshape", .atom l]
+  | .perms => tag "err" [.atom "RuntimeError"]
+  | .lTooLarge => tag "err" [.atom "NotImplementedError"]
 
 end DL
